@@ -56,6 +56,42 @@ def z3_prove(ob, timeout_ms=20000, rlimit=0, tactic=None):
     return "undecided", dt, s.reason_unknown()
 
 
+def _term_size(t, cap=2000):
+    seen, stack, n = set(), [t], 0
+    while stack and n < cap:
+        x = stack.pop()
+        if x.get_id() in seen:
+            continue
+        seen.add(x.get_id())
+        n += 1
+        stack.extend(x.children())
+    return n
+
+
+def z3_slices(ob, steps=((0, 1000), (30, 3000), (60, 5000), (120, 8000))):
+    """Proof search with subsets of the hypotheses (only the hypotheses whose term size is <= K, for growing K).
+    Sound: an obligation proved from fewer hypotheses is proved.  Never used to refute (a model of a subset of the
+    hypotheses is not a counter-model).  Helps when many irrelevant nonlinear hypotheses drown z3's NRA."""
+    t0 = time.time()
+    sizes = [_term_size(h) for h in ob.hyps]
+    last = -1
+    for K, ms in steps:
+        hs = [h for h, sz in zip(ob.hyps, sizes) if sz <= K]
+        if len(hs) == last or len(hs) == len(ob.hyps):
+            if len(hs) == len(ob.hyps):
+                break
+            continue
+        last = len(hs)
+        s = z3.Solver()
+        s.set("timeout", ms)
+        for h in hs:
+            s.add(h)
+        s.add(z3.Not(ob.goal))
+        if s.check() == z3.unsat:
+            return "proved", time.time() - t0, "z3-slice<=%d(%d/%d hyps)" % (K, len(hs), len(ob.hyps))
+    return "undecided", time.time() - t0, "no slice proves it"
+
+
 # ------------------------------------------------------------------ polyid
 def _to_sympy(e, env):
     import sympy as sp
@@ -338,6 +374,13 @@ def discharge(ob, budget=None):
                 ob.verdict, ob.backend, ob.model = "refuted", "z3", _model_dict(info)
                 ob.meta["z3model"] = info
                 break
+        elif be == "z3slice":
+            v, dt, info = z3_slices(ob)
+            total += dt
+            if v == "proved":
+                ob.verdict, ob.backend = "proved", info
+                break
+            notes.append("z3slice: %s" % info)
         elif be == "z3nra":
             v, dt, info = z3_prove(ob, tz, tactic="qfnra-nlsat")
             total += dt
